@@ -29,6 +29,12 @@ def S():
 
 def as_frozen(F, kind):
     F = sorted(F)
+    if kind == "npset":
+        return set(np.int64(i) for i in F)
+    if kind == "nparray":
+        return np.array(F, dtype=np.int32)
+    if kind == "nplist":
+        return [np.int16(i) for i in F]
     return set(F) if kind == "set" else (list(F) if kind == "list" else tuple(F))
 
 
@@ -122,6 +128,7 @@ def make_parent(seq, cached):
     p = S().Sequence(seq)
     if cached:
         # warm everything a parent could have memoised before it is asked for a child
+        p.kappa()
         p.deltaMax()
         p.sequence_charge_decoration()
         p.delta()
@@ -218,6 +225,10 @@ def shard_complete(s):
                         if move == "get_permutant" and F:
                             continue
                         for fk in (fkinds if move in ("full_shuffle", "get_shuffled_sequence") else ("set",)):
+                            if fk.startswith("np") and (len(F) != 1 or cached):
+                                continue       # numpy-integer collections: the single-site frozen sets, uncached parents
+                            if fk in ("list", "tuple") and (len(F) > 2 or cached) and L >= 5:
+                                continue       # lists/tuples: frozen sets of up to two sites on uncached parents (sets: all)
                             run_complete(seq, cached, move, F, fk, acc)
         if H.digest(H.package_state()) != w0:
             acc.viol("world-changed", "package state (defaults/globals) changed while running the moves on %s" % seq,
@@ -520,13 +531,13 @@ def replay(case):
 def run(tier, seed, t0):
     shards = []
     if tier == "quick":
-        Lc, fkinds = 5, ("set", "list")
+        Lc, fkinds = 5, ("set", "list", "npset", "nparray")
         bpats = list(spaces.shard_words(R.SYM, 6, ""))
         frozens = [(), (0,), (2, 3)]
         seeds, bound, retry = [seed * 7 + 1, seed * 7 + 2], 1, 3
         chains = [("KREDG", False), ("KREDG", True), ("KEGA", False)]
     else:
-        Lc, fkinds = 6, ("set", "list", "tuple")
+        Lc, fkinds = 6, ("set", "list", "tuple", "npset", "nparray", "nplist")
         bpats = list(spaces.shard_words(R.SYM, 6, "")) + [p for p in spaces.run_length_patterns(8, 4)]
         frozens = [()] + [(i,) for i in range(8)] + [(i, j) for i in range(8) for j in range(i + 1, 8)]
         seeds, bound, retry = [seed * 7 + 1, seed * 7 + 2, seed * 7 + 3], 2, 3
